@@ -202,6 +202,18 @@ CHECKS = {
         note=TB + ' then/inverse/raised_to/scatter and the synthesis algorithms are not modelled in Coq (tied by recomputation); '
                   'amplitude conversions are float round trips.',
         design='§4 C11'),
+    'C18': dict(
+        technique='oracle: every reported location is re-simulated in the Coq-extracted specification with a fault variable; lemmas on '
+                  'affine forms and adjointness',
+        text='Proof: forms are affine and detector forms are XORs of record forms under every assignment (so the detectors flipped by '
+             'one injected fault are exactly those whose form contains its variable); adjoint (core gate set). Tie O: for random '
+             'annotated noisy circuits (all channel kinds, measurement noise, heralded channels, ELSE chains, feedback, MPP, nested '
+             'REPEAT, TICKs) every location returned by ErrorMatcher::explain_errors_from_circuit is mapped through its stack frames '
+             'to a position of the unrolled circuit; the reported Pauli product is injected there (or the reported measurement result '
+             'is flipped as later feedback sees it) in Spec.srun and must flip exactly the error\'s detectors/observables; gate name, '
+             'target range and tick must identify that position; every error of the model (or filter) must have a location.',
+        note=TB + ' The matcher\'s bookkeeping is not modelled in Coq; coordinates are not checked.',
+        design='§4 C18'),
 }
 
 PENDING = 'check not yet built in this round (see DESIGN.md §7 phasing); the Coq model for it is planned, not claimed'
